@@ -35,6 +35,7 @@ class Built:
     error: str = ""
     module: Any = None
     root: Any = None
+    root_name: str = ""
 
     def close(self) -> None:
         if self.module is not None:
@@ -107,9 +108,23 @@ def to_openapi(doc: dict) -> dict:
     return {"openapi": "3.0.3", "info": {"title": "t", "version": "1"}, "paths": {}, "components": {"schemas": schemas}}
 
 
+def openapi_scopes() -> list:
+    """schemas + paths + parameters: the query parameters of an operation are generated as a model too"""
+    from datamodel_code_generator import OpenAPIScope
+
+    return [OpenAPIScope.Schemas, OpenAPIScope.Paths, OpenAPIScope.Parameters]
+
+
 def build(doc: dict, style: str = "v2", opts: dict | None = None, kind: str | None = None, formatters=None, target: str | None = None, root_name: str = "Model", input_file_type: str = "jsonschema") -> Built:
+    """`input_file_type="openapi"`: `doc` is an OpenAPI document (it has the key `openapi`) or a JSON-Schema
+    document that is wrapped into one (`to_openapi`); every OpenAPI run has the scopes schemas + paths + parameters.
+    `root_name="*Suffix"`: the class under test is the one class of the module whose name ends with the suffix."""
     kind = kind or STYLE_MODEL[style]
-    src = to_openapi(doc) if input_file_type == "openapi" else strip_doc(doc)
+    if input_file_type == "openapi":
+        src = strip_doc(doc) if "openapi" in doc else to_openapi(doc)
+        opts = {"openapi_scopes": openapi_scopes(), **(opts or {})}
+    else:
+        src = strip_doc(doc)
     res = e2e.run_generate(src, model=kind, opts=opts or {}, formatters=formatters, target=target, input_file_type=input_file_type)
     b = Built(ok=False, style=style, kind=kind, code=res.code)
     if not res.ok:
@@ -120,7 +135,13 @@ def build(doc: dict, style: str = "v2", opts: dict | None = None, kind: str | No
     except BaseException as e:  # noqa: BLE001
         b.error = f"import: {type(e).__name__}: {str(e)[:300]}"
         return b
-    b.root = getattr(b.module, root_name, None)
+    if root_name.startswith("*"):
+        found = [n for n in vars(b.module) if n.endswith(root_name[1:]) and isinstance(getattr(b.module, n), type) and getattr(getattr(b.module, n), "__module__", None) == b.module.__name__]
+        b.root = getattr(b.module, found[0]) if len(found) == 1 else None
+        b.root_name = found[0] if len(found) == 1 else ""
+    else:
+        b.root = getattr(b.module, root_name, None)
+        b.root_name = root_name
     if b.root is None:
         b.error = f"no class {root_name} in the generated module"
         b.close()
@@ -249,6 +270,8 @@ class NF:
             props = s.get("properties") or {}
             ap = s.get("additionalProperties")
             n = {"k": "object", "null": null}
+            if isinstance(s.get("type"), list) and "null" in s["type"]:
+                n["type_list_null"] = True  # stays when a union hoists the null flag
             n["props"] = {nm: self.nf(ps, depth + 1) for nm, ps in props.items()}
             n["required"] = sorted(s.get("required", []))
             if s.get("x-allof-inherited-required"):
